@@ -353,8 +353,9 @@ class HashSeedEngine(Engine):
             text.append(f"    NEIGHBOURHOOD {rng.choice([1, 2, 5])}")
             text.append(f"    CONDITIONS {rng.choice(conditions)}")
             text.append("")
-        return {"record": {"id": "rec", "seq": "A" * length, "circular": circular, "genes": genes},
-                "hits": hits, "profiles": profiles, "categories": ["CatA", "CatB"], "rules": "\n".join(text)}
+        scenario = {"record": {"id": "rec", "seq": "A" * length, "circular": circular, "genes": genes},
+                    "hits": hits, "profiles": profiles, "categories": ["CatA", "CatB"], "rules": "\n".join(text)}
+        return scenario
 
     def _gen_pipeline(self, rng) -> Dict[str, Any]:
         from sim.world.pipeline import (DETECTION_PROFILES, DOMAIN_PROFILES, MAIN_DOMAINS, MITE_ENTRIES, PFAM_PROFILES,
@@ -367,7 +368,8 @@ class HashSeedEngine(Engine):
         with_domains = set()
         profiles = sorted(DETECTION_PROFILES)
         combos = [["PKS_AT", "PKS_KS"], ["Condensation", "AMP-binding"], ["t2ks", "t2clf"], ["LANC_like", "Lant_dehydr_N", "Lant_dehydr_C"],
-                  ["Chal_sti_synt_C"], ["PUFA_KS"], ["APE_KS1"], ["phytoene_synt"], ["DarB"], ["PKS_AT", "tra_KS"]]
+                  ["Chal_sti_synt_C"], ["PUFA_KS"], ["APE_KS1"], ["phytoene_synt"], ["DarB"], ["PKS_AT", "tra_KS"],
+                  ["t2ks", "t2clf"], ["t2clf", "t2ks"]]
         for r in range(rng.choice([1, 1, 2])):
             length = rng.choice([4000, 8000, 12000])
             seq = "".join(rng.choice(GC_ALPHABET) for _ in range(length))
@@ -480,15 +482,30 @@ class HashSeedEngine(Engine):
         if anchors and rng.random() < 0.8:
             extra += ["--enable-t2pks"]
             by_name = {gene["name"]: gene for record in records for gene in record["genes"]}
-            for name in anchors:
+            for position, name in enumerate(anchors):
                 aa = sum(e - b for b, e in by_name[name]["parts"]) // 3
-                for _ in range(rng.randint(1, 2)):
+                for attempt in range(rng.randint(1, 2)):
                     start = rng.choice([2, 50])
                     if start + 45 < aa:
-                        hit = {"cds": name, "profile": rng.choice(T2PKS_PROFILES), "start": start, "end": start + 45,
+                        # (the first one is a chain length factor more often than not: without an elongation
+                        # prediction there are no molecular weights)
+                        names = T2PKS_PROFILES if position or attempt or rng.random() < 0.3 else \
+                            [p for p in T2PKS_PROFILES if p.startswith("CLF")]
+                        hit = {"cds": name, "profile": rng.choice(names), "start": start, "end": start + 45,
                                "bitscore": rng.choice([80, 80, 120]), "evalue": 1e-20}
                         if not any(o["cds"] == name and o["start"] == start for o in t2pks_hits):
                             t2pks_hits.append(hit)
+            # tailoring enzymes on the other genes of those records (the cluster's molecular weight is a sum over
+            # all of them: several different kinds have to be present for the order of summation to matter)
+            tailoring = [name for name in T2PKS_PROFILES if name.split("_")[0] in ("KR", "CYC", "MET", "GT", "HAL")]
+            for record in records:
+                if not any(gene["name"] in anchors for gene in record["genes"]):
+                    continue
+                for gene in record["genes"]:
+                    aa = sum(e - b for b, e in gene["parts"]) // 3
+                    if gene["name"] not in anchors and aa > 60 and rng.random() < 0.6:
+                        t2pks_hits.append({"cds": gene["name"], "profile": rng.choice(tailoring), "start": 2, "end": 47,
+                                           "bitscore": rng.choice([80, 80, 120]), "evalue": 1e-20})
         # terpene analysis of terpene protoclusters: complete, high scoring hits of the module's own profiles
         terpene_hits = []
         anchors = sorted({hit["cds"] for hit in hits if hit["profile"] == "phytoene_synt"})
